@@ -312,4 +312,5 @@ class NX(object):
     if k == "nxmatch":
       m = nx.nx_match()
       return m.unpack(buf, off, n), m
-    return type(obj).unpack_new(buf, off)
+    cls = type(obj) if obj is not None else type(self.new_object(k))
+    return cls.unpack_new(buf, off)
